@@ -316,3 +316,160 @@ PROPS['C08'] = dict(
     assumptions=['TLC; LRU.tla as transcription of the property; LRUHeap.tla/Heap.tla as transcription of cache.go, lru.go, heapq.go',
                  'known finding F2 is attributed by the as-is model LRUHeapTrace(Known={F1,F2}); the TLC counterexample of LRUHeapMC(Known={F2}) is replayed on the real cache',
                  'Clear\'s callback order is unconstrained (exactly-once only)'])
+
+# --------------------------------------------------------------------------
+# C09 cache.Cache under concurrency: linearizability search per recorded
+# history (LinTrace) + Go race detector during the recorded runs
+
+import re as _re
+HW_RE = _re.compile(r'<<"HIGHWATER", (\d+), (\d+)>>')
+
+
+LIN_STATS = dict(distinct=0, generated=0)
+
+
+def lin_validate_file(work, path):
+    """Returns (n_histories, [line text of each non-linearizable history])."""
+    bad = []
+    total = 0
+    cur = path
+    while True:
+        if os.path.getsize(cur) == 0:
+            break
+        r = vlib.tlc(work, 'LinTrace', 'LinTrace.cfg', workers=1, timeout=1800, env={'TRACE': cur}, heap='3g')
+        LIN_STATS['distinct'] += r['distinct']
+        LIN_STATS['generated'] += r['generated']
+        m = HW_RE.search(r['out'])
+        if not m or r['rc'] != 0:
+            raise MachineryError('linearizability search did not complete on %s (rc=%d):\n%s' % (cur, r['rc'], vlib.tlc_tail(r)))
+        hw, n = int(m.group(1)), int(m.group(2))
+        if cur == path:
+            total = n
+        if hw >= n + 1:
+            break
+        with open(cur) as f:
+            lines = f.readlines()
+        bad.append(lines[hw - 1].rstrip('\n'))
+        nxt = work.fresh('linrest') + '.ndjson'
+        with open(nxt, 'w') as f:
+            f.writelines(lines[hw:])
+        cur = nxt
+    return total, bad
+
+
+def scan_race_logs(d):
+    reps = []
+    for f in sorted(os.listdir(d)):
+        if f.startswith('race.'):
+            txt = open(os.path.join(d, f), errors='replace').read()
+            for blk in txt.split('=================='):
+                if 'DATA RACE' in blk:
+                    reps.append(blk.strip())
+    return reps
+
+
+def run_c09(prop, tier, seed, t0):
+    import concurrent.futures as cf
+    P = PROPS[prop]
+    work = vlib.Work(prop)
+    rbin = vlib.build_harness(work, race=True)
+    work.bin = rbin
+    vlib.clear_witnesses(prop)
+    states = trans = 0
+    mcs = []
+    for m in P.get('mc', []):
+        cfg = m['cfg'] if isinstance(m['cfg'], str) else T(tier, *m['cfg'])
+        r = vlib.model_check(work, m['module'], cfg, workers=m.get('workers', 8), timeout=1500,
+                             must_hold=not m.get('expect_violation'))
+        if m.get('expect_violation') and r['ok']:
+            raise MachineryError('%s %s: expected a violating interleaving, TLC found none' % (m['module'], cfg))
+        states += r['distinct']
+        trans += r['generated']
+        mcs.append(dict(module=m['module'], cfg=cfg, distinct=r['distinct'], generated=r['generated'],
+                        refuted=bool(m.get('expect_violation')), wall_s=round(r['wall'], 1)))
+    racedir = work.sub('race')
+    env = dict(os.environ, GORACE='halt_on_error=0 exitcode=0 log_path=%s/race' % racedir)
+    crashed = None
+    try:
+        meta = vlib.run_harness(work, prop, seed, tier, env=env)
+    except vlib.HarnessDied as e:
+        # a Go runtime fatal error (e.g. "concurrent map writes") is behaviour of the real code
+        if 'fatal error: concurrent map' in e.text or 'DATA RACE' in e.text:
+            crashed = e.text
+            meta = None
+        else:
+            raise
+    violations = []
+    k = 0
+    races = scan_race_logs(racedir)
+    mdsrace = [r for r in races if 'creachadair/mds/' in r]
+    if crashed:
+        k += 1
+        violations.append(vlib.save_witness(prop, k, [crashed], 'txt'))
+    if mdsrace:
+        k += 1
+        violations.append(vlib.save_witness(prop, k, ['Go race detector report while running concurrent cache workloads:', mdsrace[0]], 'txt'))
+    elif races:
+        raise MachineryError('race detector fired, but not on mds code:\n' + races[0][:3000])
+    nhist = nbad = 0
+    samples = []
+    nonlin = []
+    if meta:
+        files = sorted(os.path.join(meta['dir'], f) for f in os.listdir(meta['dir']) if f.startswith('shard-'))
+        tv = time.time()
+        with cf.ThreadPoolExecutor(max_workers=vlib.NCPU) as ex:
+            for total, bad in ex.map(lambda p: lin_validate_file(work, p), files):
+                nhist += total
+                nonlin += bad
+        log('linearizability search: %d histories, %d without a linearization, %.1fs' % (nhist, len(nonlin), time.time() - tv))
+        samples = meta['samples'][:2]
+    rer = {}
+    for line in nonlin[:MAX_CONFIRM]:
+        k += 1
+        wit = vlib.save_witness(prop, k, [line])
+        # the witness alone must again have no linearization (deterministic)
+        tot, bad = lin_validate_file(work, wit)
+        if not bad:
+            os.remove(wit)
+            raise MachineryError('witness %s was accepted when validated alone' % wit)
+        violations.append(wit)
+        # informational: how often does the same workload misbehave again?
+        out = work.fresh('rerun') + '.ndjson'
+        r = subprocess.run([work.bin, 'confirm', prop, '-witness', wit, '-out', out, '-seed', str(seed)],
+                           capture_output=True, text=True, env=env, timeout=900)
+        if r.returncode == 0:
+            tot, bad2 = lin_validate_file(work, out)
+            rer[os.path.basename(wit)] = '%d of %d reruns of the same workload had no linearization' % (len(bad2), tot)
+    extra = dict(model_checking_runs=mcs, histories_recorded=nhist, non_linearizable=len(nonlin),
+                 race_detector=dict(enabled=True, reports=len(races), reports_on_mds=len(mdsrace)),
+                 reruns=rer, trace_spec='LinTrace (linearizability search against LRU.tla)',
+                 gomaxprocs=[1, 2, 4, 8])
+    extra['linearizability_search_states'] = dict(LIN_STATS)
+    states += LIN_STATS['distinct']
+    trans += LIN_STATS['generated']
+    vlib.write_evidence(prop, tier, seed, t0, max(states, 1), max(trans, 1), nhist, samples or ['(harness crashed)'], extra,
+                        violations=len(violations), assumptions=P.get('assumptions', []), exhaustive=False)
+    return finish(prop, violations, [], 0)
+
+
+def replay_c09(prop, witness):
+    work = vlib.Work(prop)
+    if witness.endswith('.txt'):
+        print(open(witness).read()[:4000])
+        print('(race-detector / crash report: not replayable deterministically; re-run bin/check C09)')
+        return 1
+    tot, bad = lin_validate_file(work, witness)
+    if bad:
+        print('REPRODUCED: the recorded concurrent history has no linearization consistent with LRU.tla')
+        print(bad[0][:3000])
+        return 1
+    print('NOT REPRODUCED')
+    return 0
+
+
+PROPS['C09'] = dict(
+    run=run_c09, replay=replay_c09, mc=[],
+    assumptions=['TLC decides each RECORDED history exhaustively (all linearizations); which schedules occur is up to the Go scheduler: seeds x GOMAXPROCS {1,2,4,8} x injected yields/spins',
+                 'the "no data race" clause is observed by the Go race detector during the recorded runs (TLC does not see memory accesses)',
+                 'workloads hold at most 4 entries, so known finding F2 (needs >= 7 live entries) cannot occur and the sequential oracle is the plain LRU',
+                 'invocation/response order from one shared atomic counter read immediately before/after each call'])
